@@ -196,27 +196,38 @@ func Association[K comparable, V any](arguments ...any) col.AssociationLike[K, V
 	var notation = CDCN()
 	var key K
 	var value V
+	var hasKey bool
 
-	// Process the actual arguments.
+	// Process the actual arguments.  NOTE: The key comes before the value, the
+	// types K and V may be the same type or an interface type that the other
+	// argument (or the notation) satisfies as well.
 	for _, argument := range arguments {
 		switch actual := argument.(type) {
+		case col.NotationLike:
+			notation = actual
 		case K:
-			key = actual
-		case V:
-			value = actual
-		default:
-			var notationType = ref.TypeOf((*col.NotationLike)(nil)).Elem()
-			var reflectedType = ref.TypeOf(argument)
-			switch {
-			case reflectedType.Implements(notationType):
-				notation = argument.(col.NotationLike)
-			default:
+			if !hasKey {
+				key = actual
+				hasKey = true
+				break
+			}
+			var second, isValue = argument.(V)
+			if !isValue {
 				var message = fmt.Sprintf(
 					"Unknown argument type passed into the association constructor: %T\n",
 					actual,
 				)
 				panic(message)
 			}
+			value = second
+		case V:
+			value = actual
+		default:
+			var message = fmt.Sprintf(
+				"Unknown argument type passed into the association constructor: %T\n",
+				actual,
+			)
+			panic(message)
 		}
 	}
 
